@@ -53,6 +53,7 @@ func init() {
 					r.OK(p.Root.Syntax[0], "functions handling an inflightPrepare wait on a channel only in a select", fmtInt(nf)+" functions inspected, no bare receive")
 				}
 			}},
+			{ID: "C14.R12", Floor: 2, Doc: "the caller that inserted the in-flight entry starts the preparing goroutine on every path (no return between the insertion and the go statement)", Run: c14WinnerStarts},
 			{ID: "C14.R10", Floor: 1, Doc: "lru Get moves the entry to the front on every path that reports a hit", Run: c14r10},
 		},
 	})
